@@ -39,6 +39,8 @@ fixed("C01", "4898454", "a heading inside a block quote ended with a bare empty 
 fixed("C03", "4d2f64e", "the second of two adjacent quoted phrases kept straight quotes unless two or more spaces separated them (QUOTE_PATTERN consumed the separator): layout dependent", "verb[quoted-code]/relayout:content")
 fixed("C10", "7d63d2a", "no blank line before the next list item after an item ending in a thematic break (loose spacing)", "list[PR|P]/list-spacing:loose-blank-line-before-every-item")
 fixed("C04", "413e056", "an inline link title containing a backslash followed by a double quote (or ending in a backslash) broke the link: found by the CrossHair title kernel, reproduced", "kernel[k_title]")
+fixed("C01", "bb2b1ae", "an alert nested in a list item or in another quote lost its container prefix (header emitted at column 0): the alert left its container (pointed out by a sub-agent while seeding faults; skeletons added)", "block[alert-in-list]/shape")
+fixed("C01", "c6214be", "a table inside a list item or block quote was rendered at column 0 and left its container", "block[table-in-list]/shape")
 fixed("C17", "fa95314", "directory traversal followed symlinks to files (targets outside the tree or inside excluded directories were listed); glob arguments skipped excluded directories and .flowmarkignore", "dir/unwanted[reached-via-file-link]")
 
 # ---------------------------------------------------------------- known: C05
